@@ -35,6 +35,8 @@ the real lines):
   N12 a, b = (x, y) -> a = x ; b = y  when no target occurs on the right.
   N13 literal tests: `if True: A else: B` -> A,  `x if False else y` -> y.
   N14 D = {'k': a, ...} used only as D['k'] with names / literals as values -> the values themselves.
+  N17 a, b = (E(x) for x in cur.fetchone()) -> t = cur.fetchone() ; a = E(t[0]) ; b = E(t[1]).
+  N16 x = A if C else B -> if C: x = A else: x = B ; return A if C else B -> if C: return A else: return B.
   N15 np.logical_and(A, B) -> A & B, np.logical_or -> |, np.logical_not(A) -> ~A  when A, B are comparisons.
   N3  keyword arguments that name the next positional parameter of a function
       of the repository become positional  (done by Repo once all modules are
@@ -498,6 +500,98 @@ def fold_constant_formats(tree):
     return n
 
 
+def conditional_statements(fnode):
+    """N16:  x = A if C else B  ->  if C: x = A else: x = B ;   return A if C else B  ->  if C: return A else: return B
+    (whole value of the statement; a plain name as the target)."""
+    n = 0
+    for parent in ast.walk(fnode):
+        for fld in ("body", "orelse", "finalbody"):
+            blk = getattr(parent, fld, None)
+            if not isinstance(blk, list):
+                continue
+            for j, st in enumerate(list(blk)):
+                v = getattr(st, "value", None)
+                if not isinstance(v, ast.IfExp):
+                    continue
+                if isinstance(st, ast.Assign) and len(st.targets) == 1 and isinstance(st.targets[0], ast.Name):
+                    def mk(val):
+                        a = ast.Assign(targets=[ast.Name(id=st.targets[0].id, ctx=ast.Store())], value=val)
+                        return a
+                elif isinstance(st, ast.Return):
+                    def mk(val):
+                        return ast.Return(value=val)
+                else:
+                    continue
+                new = ast.If(test=v.test, body=[mk(v.body)], orelse=[mk(v.orelse)])
+                for node in (new, new.body[0], new.orelse[0]):
+                    ast.copy_location(node, st)
+                    for sub in ast.iter_child_nodes(node):
+                        if not hasattr(sub, "lineno"):
+                            ast.copy_location(sub, st)
+                blk[j] = new
+                n += 1
+    return n
+
+
+_N17 = [0]
+
+
+def unpack_comprehensions(fnode):
+    """N17:  a, b = (E(x) for x in cur.fetchone())   ->   t = cur.fetchone() ; a = E(t[0]) ; b = E(t[1])
+    (k plain names on the left, one generator without conditions over a plain loop variable; the number of targets
+    fixes the length S must have, otherwise both forms raise)."""
+    n = 0
+    for parent in ast.walk(fnode):
+        for fld in ("body", "orelse", "finalbody"):
+            blk = getattr(parent, fld, None)
+            if not isinstance(blk, list):
+                continue
+            j = 0
+            while j < len(blk):
+                st = blk[j]
+                j += 1
+                if not (isinstance(st, ast.Assign) and len(st.targets) == 1 and isinstance(st.targets[0], (ast.Tuple, ast.List))
+                        and all(isinstance(t, ast.Name) for t in st.targets[0].elts) and len(st.targets[0].elts) >= 2):
+                    continue
+                v = st.value
+                while isinstance(v, ast.Call) and isinstance(v.func, ast.Name) and v.func.id in ("tuple", "list") and len(v.args) == 1:
+                    v = v.args[0]
+                if not (isinstance(v, (ast.GeneratorExp, ast.ListComp)) and len(v.generators) == 1 and not v.generators[0].ifs
+                        and isinstance(v.generators[0].target, ast.Name) and not v.generators[0].is_async):
+                    continue
+                g = v.generators[0]
+                var = g.target.id
+                if any(isinstance(x, SCOPES) for x in ast.walk(v.elt)):
+                    continue
+                # only over one fetched row (cursor.fetchone()): `zip(*rows)` column unpacking is an idiom the bindings read as it is
+                if not (isinstance(g.iter, ast.Call) and isinstance(g.iter.func, ast.Attribute) and g.iter.func.attr == "fetchone"):
+                    continue
+                targets = [t.id for t in st.targets[0].elts]
+                if any(isinstance(x, ast.Name) and x.id in targets for x in ast.walk(v.elt)) or any(isinstance(x, ast.Name) and x.id in targets for x in ast.walk(g.iter)):
+                    continue
+                new = []
+                if isinstance(g.iter, ast.Name):
+                    seq = g.iter.id
+                else:
+                    _N17[0] += 1
+                    seq = "_n17_%d" % _N17[0]
+                    a0 = ast.Assign(targets=[ast.Name(id=seq, ctx=ast.Store())], value=g.iter)
+                    new.append(a0)
+                for k, t in enumerate(targets):
+                    elem = ast.Subscript(value=ast.Name(id=seq, ctx=ast.Load()), slice=ast.Constant(value=k), ctx=ast.Load())
+                    val = _subst(_clone(v.elt), {var: elem})
+                    new.append(ast.Assign(targets=[ast.Name(id=t, ctx=ast.Store())], value=val))
+                for node in new:
+                    ast.copy_location(node, st)
+                    for sub in ast.walk(node):
+                        if not hasattr(sub, "lineno"):
+                            ast.copy_location(sub, st)
+                blk[j - 1:j] = new
+                j += len(new) - 1
+                n += 1
+    return n
+
+
 def fold_constant_tests(fnode):
     """N13: `if True: A else: B` -> A ;  `x if False else y` -> y  (literal tests, as they arise when a helper
     called with a literal flag is unfolded)."""
@@ -715,6 +809,8 @@ def normalize_module(tree, modname=None, foreign=None):
             expand_star_tuples(node)
             loops_to_comprehensions(node)
             fold_constant_tests(node)
+            conditional_statements(node)
+            unpack_comprehensions(node)
             for _k in range(3):
                 a_ = inline_temporaries(node)
                 c_ = split_tuple_assignments(node)
@@ -1029,12 +1125,18 @@ def inline_unknown_helpers(tree, modname, foreign=None):
                         and m.args.args and m.args.args[0].arg == "self":
                     cands[(st.name, m.name)] = m
     foreign = foreign or {}
-    if not cands and not foreign:
+    has_local = any(isinstance(x, ast.FunctionDef) and isinstance(getattr(x, "parent", None), ast.FunctionDef) for x in ast.walk(tree)) or \
+        any(isinstance(y, ast.FunctionDef) for st in ast.walk(tree) if isinstance(st, ast.FunctionDef) for y in st.body)
+    if not cands and not foreign and not has_local:
         return 0
     total = 0
 
+    local_defs = {}
+
     def callee_of(call, cls):
         f = call.func
+        if isinstance(f, ast.Name) and f.id in local_defs:
+            return local_defs[f.id], list(call.args)
         if isinstance(f, ast.Name) and ("", f.id) in cands:
             return cands[("", f.id)], list(call.args)
         # a helper of another module of the package (imported by name / called through the module alias)
@@ -1059,6 +1161,15 @@ def inline_unknown_helpers(tree, modname, foreign=None):
         changed = False
         for cls, fn in owners():
             local_stores = {x.id for x in ast.walk(fn) if isinstance(x, ast.Name) and isinstance(x.ctx, ast.Store)} | {a.arg for a in fn.args.args}
+            # closures defined directly in this function's body (bound once, never rebound, not recursive): a call reads the
+            # enclosing variables as they are at the call, which is what the inlined body does
+            local_defs.clear()
+            for y in fn.body:
+                if isinstance(y, ast.FunctionDef) and _inlinable(y) and y.name not in local_stores \
+                        and sum(1 for z in ast.walk(fn) if isinstance(z, ast.FunctionDef) and z.name == y.name) == 1 \
+                        and not any(isinstance(z, ast.Name) and z.id == y.name and id(z) not in
+                                    {id(c.func) for c in ast.walk(fn) if isinstance(c, ast.Call)} for z in ast.walk(fn)):
+                    local_defs[y.name] = y
             for block in list(_blocks(fn)):
                 i = 0
                 while i < len(block):
@@ -1140,7 +1251,7 @@ def inline_unknown_helpers(tree, modname, foreign=None):
                         - {x.id for x in ast.walk(fdef) if isinstance(x, ast.Name) and isinstance(x.ctx, ast.Store)} \
                         - {x.arg for x in ast.walk(fdef) if isinstance(x, ast.arg)} \
                         - {x.name for x in ast.walk(fdef) if isinstance(x, ast.FunctionDef) and x is not fdef}
-                    if free & local_stores:
+                    if free & local_stores and fdef not in local_defs.values():
                         i += 1
                         continue
                     try:
